@@ -3,6 +3,7 @@
 // STUBS: see its_common.rs (GatewaySpec, TokenSpec, executable recorder); get_message_type and HubMessage::abi_decode return ARBITRARY results (any type tag or error; any HubMessage or error) — a strict over-approximation of what any payload can decode to
 // C04 (gating of inbound messages), C05 inbound half, C11 remote-deploy arm.
 use super::__verif_its_common::*;
+use super::__verif_its_seed::*;
 use super::*;
 use crate::abi::MessageType as AbiType;
 use soroban_sdk::crypto::ideal_hash;
